@@ -728,7 +728,7 @@ Theorem key_range p r n :
   0 <= n < key_bound -> rkey r = qkey_make p n -> rraw r = true ->
   (in_range p r = true <-> push_min_key < n < push_max_key).
 Proof.
-  intros Hn K R. rewrite (in_range_make p r n Hn K), R. cbn [andb]. rewrite andb_true_iff, !Z.ltb_lt. tauto.
+  intros Hn K R. rewrite (in_range_make p r n Hn K), R. cbn [andb]. rewrite andb_true_iff, !Z.ltb_lt. reflexivity.
 Qed.
 
 (* in terms of how far the queue has grown on each side of the start key *)
@@ -831,4 +831,374 @@ Proof.
     assert (F : forallb (fun x => match fetch_row ex_cfg ex_s x false with FIOError => false | _ => true end) (rows ex_s) = true)
       by (vm_compute; reflexivity).
     rewrite forallb_forall in F. rewrite <- E in Hr. specialize (F r Hr). intros X. rewrite X in F. discriminate.
+Qed.
+
+(* ================================================================== exactly-once delivery (atomic layer) *)
+From DC Require Import QueueConc.
+
+Section ExactlyOnce.
+Context {A : Type}.
+Implicit Types (st : qstate A) (sched : list (event A)).
+
+Lemma pushed_cons (e : event A) sched :
+  pushed (e :: sched) = match snd e with QPush _ x => [(fst e, x)] | QPull _ => [] end ++ pushed sched.
+Proof. reflexivity. Qed.
+
+(* ALL schedules, any mix of sides: what was delivered plus what is still queued is, as a multiset, what
+   was there plus what was pushed -- nothing lost, nothing duplicated, nothing invented *)
+Theorem conservation : forall sched st,
+  Permutation (delivered (q_run st sched) ++ q_items (q_run st sched)) (delivered st ++ q_items st ++ pushed sched).
+Proof.
+  induction sched as [|e sched IH]; intros st.
+  - cbn. rewrite app_nil_r. reflexivity.
+  - cbn [q_run fold_left]. fold (q_run (q_step st e) sched). rewrite IH, pushed_cons.
+    destruct e as [c o]. unfold q_step, delivered. cbn [fst snd]. destruct o as [sd x|sd].
+    + cbn [q_items q_out]. apply Permutation_app_head. rewrite app_assoc. apply Permutation_app_tail.
+      destruct sd; cbn [q_push]; [reflexivity|apply Permutation_cons_append].
+    + cbn [app]. destruct sd; cbn [q_pull].
+      * destruct (rev (q_items st)) as [|y r] eqn:R; [reflexivity|]. cbn [q_items q_out].
+        assert (E : q_items st = rev r ++ [y]) by (rewrite <- (rev_involutive (q_items st)), R; reflexivity).
+        rewrite E, map_app. cbn [map snd]. rewrite <- !app_assoc. apply Permutation_app_head.
+        rewrite !app_assoc. apply Permutation_app_tail. cbn [app]. apply Permutation_cons_append.
+      * destruct (q_items st) as [|y r] eqn:R; [rewrite R; reflexivity|]. cbn [q_items q_out].
+        rewrite map_app. cbn [map snd]. rewrite <- !app_assoc. reflexivity.
+Qed.
+
+(* back-push / front-pull: the deliveries followed by the queue ARE the pushes, in push order *)
+Theorem fifo_order : forall sched st,
+  forallb (fun e => fifo_op (snd e)) sched = true ->
+  delivered (q_run st sched) ++ q_items (q_run st sched) = delivered st ++ q_items st ++ pushed sched.
+Proof.
+  induction sched as [|e sched IH]; intros st F.
+  - cbn. rewrite app_nil_r. reflexivity.
+  - cbn [forallb] in F. apply andb_true_iff in F as [Fe F].
+    cbn [q_run fold_left]. fold (q_run (q_step st e) sched). rewrite (IH _ F), pushed_cons.
+    destruct e as [c o]. unfold q_step, delivered. cbn [fst snd] in *.
+    destruct o as [[|] x|[|]]; try discriminate Fe.
+    + cbn [q_items q_out q_push]. rewrite <- !app_assoc. reflexivity.
+    + cbn [q_pull app]. destruct (q_items st) as [|y r] eqn:R; [rewrite R; reflexivity|]. cbn [q_items q_out].
+      rewrite map_app. cbn [map snd]. rewrite <- !app_assoc. reflexivity.
+Qed.
+
+(* mirror image: front-push / back-pull *)
+Theorem mirror_order : forall sched st,
+  forallb (fun e => mirror_op (snd e)) sched = true ->
+  delivered (q_run st sched) ++ rev (q_items (q_run st sched)) = delivered st ++ rev (q_items st) ++ pushed sched.
+Proof.
+  induction sched as [|e sched IH]; intros st F.
+  - cbn. rewrite app_nil_r. reflexivity.
+  - cbn [forallb] in F. apply andb_true_iff in F as [Fe F].
+    cbn [q_run fold_left]. fold (q_run (q_step st e) sched). rewrite (IH _ F), pushed_cons.
+    destruct e as [c o]. unfold q_step, delivered. cbn [fst snd] in *.
+    destruct o as [[|] x|[|]]; try discriminate Fe.
+    + cbn [q_items q_out q_push rev]. rewrite <- !app_assoc. reflexivity.
+    + cbn [q_pull app]. destruct (rev (q_items st)) as [|y r] eqn:R; [rewrite R; reflexivity|]. cbn [q_items q_out].
+      rewrite rev_involutive, map_app. cbn [map snd]. rewrite <- !app_assoc. reflexivity.
+Qed.
+
+Definition pushes_of (prog : list (qop A)) : list A :=
+  flat_map (fun o => match o with QPush _ x => [x] | QPull _ => [] end) prog.
+
+(* the pushed items of producer c are its program's pushes, in program order *)
+Lemma by_producer_pushed c sched : by_producer c (pushed sched) = map (pair c) (pushes_of (program c sched)).
+Proof.
+  induction sched as [|[c' o] sched IH]; [reflexivity|].
+  rewrite pushed_cons. unfold by_producer in *. rewrite filter_app, IH. unfold program. cbn [filter fst snd].
+  destruct o as [sd x|sd]; cbn [filter fst app]; destruct (Nat.eqb_spec c' c) as [->|N]; cbn [map snd pushes_of flat_map app]; reflexivity.
+Qed.
+
+(* from the empty queue, any number of producers and consumers, every interleaving *)
+Theorem exactly_once_fifo sched :
+  forallb (fun e => fifo_op (snd e)) sched = true ->
+  let st := q_run q_init sched in
+  delivered st ++ q_items st = pushed sched /\
+  (forall c, by_producer c (delivered st) ++ by_producer c (q_items st) = map (pair c) (pushes_of (program c sched))) /\
+  (NoDup (pushed sched) -> NoDup (delivered st ++ q_items st)).
+Proof.
+  intros F. cbv zeta. pose proof (fifo_order sched q_init F) as E.
+  change (delivered q_init ++ q_items q_init ++ pushed sched) with (pushed sched) in E. split; [exact E|]. split.
+  - intros c. rewrite <- by_producer_pushed. unfold by_producer. rewrite <- filter_app. f_equal. exact E.
+  - rewrite E. auto.
+Qed.
+
+Theorem exactly_once_mirror sched :
+  forallb (fun e => mirror_op (snd e)) sched = true ->
+  let st := q_run q_init sched in
+  delivered st ++ rev (q_items st) = pushed sched /\
+  (forall c, by_producer c (delivered st) ++ by_producer c (rev (q_items st)) = map (pair c) (pushes_of (program c sched))) /\
+  (NoDup (pushed sched) -> NoDup (delivered st ++ q_items st)).
+Proof.
+  intros F. cbv zeta. pose proof (mirror_order sched q_init F) as E.
+  change (delivered q_init ++ rev (q_items q_init) ++ pushed sched) with (pushed sched) in E. split; [exact E|]. split.
+  - intros c. rewrite <- by_producer_pushed. unfold by_producer. rewrite <- filter_app. f_equal. exact E.
+  - intros N. rewrite <- E in N. eapply Permutation_NoDup; [|exact N].
+    apply Permutation_app_head, Permutation_sym, Permutation_rev.
+Qed.
+
+Theorem exactly_once_any sched :
+  let st := q_run q_init sched in
+  Permutation (delivered st ++ q_items st) (pushed sched) /\
+  (NoDup (pushed sched) -> NoDup (delivered st ++ q_items st)).
+Proof.
+  cbv zeta. pose proof (conservation sched q_init) as P.
+  change (delivered q_init ++ q_items q_init ++ pushed sched) with (pushed sched) in P. split; [exact P|].
+  intros N. eapply Permutation_NoDup; [apply Permutation_sym, P|exact N].
+Qed.
+End ExactlyOnce.
+
+(* two producers, two consumers, one interleaving *)
+Example exactly_once_example :
+  let sched := [(1%nat, QPush Back 10); (2%nat, QPush Back 20); (3%nat, QPull Front); (1%nat, QPush Back 11);
+                (4%nat, QPull Front); (4%nat, QPull Front); (3%nat, QPull Front); (2%nat, QPush Back 21)] in
+  forallb (fun e => fifo_op (snd e)) sched = true /\
+  q_out (q_run q_init sched) = [(3%nat, (1%nat, 10)); (4%nat, (2%nat, 20)); (4%nat, (1%nat, 11))] /\
+  q_items (q_run q_init sched) = [(2%nat, 21)].
+Proof. vm_compute. repeat split. Qed.
+
+(* ================================================================== the three clauses together *)
+Theorem deque_refines c p s :
+  qinv c p s ->
+  (* push: appends at the back / prepends at the front, returns the key of the row it inserted *)
+  (forall v read sd_ expire tag now pg sd,
+     store (c_codec c) (c_min_file_size c) v read = StOk sd ->
+     push_min_key < push_num p sd_ (queue_view p s) < push_max_key ->
+     cull_quiet c now pg (push_state s p sd_ expire tag now sd) ->
+     let s' := push_state s p sd_ expire tag now sd in
+     let r := push_row s p sd_ expire tag now sd in
+     op_push c s v read p sd_ expire tag now pg = (s', RKey (rkey r))
+     /\ rows s' = rows s ++ [r]
+     /\ queue_view p s' = match sd_ with Back => queue_view p s ++ [r] | Front => r :: queue_view p s end
+     /\ st_ok s' /\ prefix_clean p s'
+     /\ rraw r = true /\ expire_time r = expire_at now expire /\ rtag r = tag
+     /\ rmode r = s_mode sd /\ rvalue r = s_col sd /\ rfile r = snd (fs_write s (s_file sd))) /\
+  (* pull: drops the heads whose time has passed, hands out the first live row of that side and removes it *)
+  (forall sd now s' res, op_pull c s p sd now = (s', res) ->
+     let L := drop_expired now (oriented sd (queue_view p s)) in
+     res = deliver c s L /\ oriented sd (queue_view p s') = tl L /\ qinv c p s' /\
+     (forall r, In r (tl L) -> fetch_row c s' r false = fetch_row c s r false) /\ frame p s s') /\
+  (* peek: the same item, not removed *)
+  (forall sd now s' res, op_peek c s p sd now = (s', res) ->
+     let L := drop_expired now (oriented sd (queue_view p s)) in
+     res = deliver c s L /\ oriented sd (queue_view p s') = L /\ qinv c p s' /\
+     (forall r, In r L -> fetch_row c s' r false = fetch_row c s r false) /\ frame p s s').
+Proof.
+  intros I. split; [|split].
+  - intros v read sd_ expire tag now pg sd St V Q. cbv zeta. destruct I as [Ok [C _]].
+    destruct (push_refines c s v read p sd_ expire tag now pg sd Ok C St V Q) as [A [B [D [E F]]]].
+    repeat split; auto.
+  - intros sd now s' res E. exact (pull_refines c s p sd now s' res I E).
+  - intros sd now s' res E. exact (peek_refines c s p sd now s' res I E).
+Qed.
+
+From DC Require Import DiskFacts.
+
+(* ================================================================== the invariant is inductive *)
+(* file ids come from a fresh-name supply *)
+Definition fs_fresh (s : st) : Prop :=
+  (forall i c, In (i, c) (fs s) -> i < next_file s) /\
+  (forall r i, In r (rows s) -> rfile r = Some i -> i < next_file s).
+
+Definition qinv_full (c : cfg) (p : option (list Z)) (s : st) : Prop := qinv c p s /\ fs_fresh s.
+
+Lemma fetch_some_not_ioerror c mode f col read : fetch c mode (Some f) col read <> FIOError.
+Proof.
+  unfold fetch. destruct (fetch_plan_of mode _ read); destruct f;
+    repeat match goal with |- context [match ?x with _ => _ end] => destruct x end; discriminate.
+Qed.
+
+(* what store wrote can be read back: no IOError *)
+Lemma store_fetchable c m v read sd :
+  store c m v read = StOk sd -> fetch c (s_mode sd) (s_file sd) (s_col sd) false <> FIOError.
+Proof.
+  intros St. destruct (s_file sd) as [f|] eqn:F; [apply fetch_some_not_ioerror|].
+  revert St. unfold store. rewrite bridge_store_plan.
+  assert (Inl : forall mode col, (mode = MODE_RAW \/ (mode = MODE_PICKLE /\ exists b, col = VBytes b)) ->
+                 run_plan v (PlanInline mode col) = StOk sd ->
+                 fetch c (s_mode sd) None (s_col sd) false <> FIOError).
+  { intros mode col Hm. cbn [run_plan]. destruct (bind col) as [bv| | |] eqn:B; try discriminate.
+    intros E; inversion E; subst sd; cbn [s_mode s_col]. unfold fetch. rewrite bridge_fetch_plan.
+    destruct Hm as [->|[-> [b ->]]].
+    - cbn. destruct (column bv); discriminate.
+    - cbn in B. inversion B; subst bv. cbn. destruct (unpk c b); discriminate. }
+  assert (Pk : run_plan v (pickle_plan m (pkv c) v) = StOk sd -> fetch c (s_mode sd) None (s_col sd) false <> FIOError).
+  { unfold pickle_plan. cbv zeta. destruct (_ <? m).
+    - apply Inl. right. split; [reflexivity|eexists; reflexivity].
+    - cbn. intros E; inversion E; subst sd. cbn in F. discriminate. }
+  destruct v as [z|f|s|b|i|b]; cbn [store_plan_spec].
+  - destruct (in_int64 z); [apply Inl; left; reflexivity|]. destruct read; [|exact Pk].
+    cbn. intros E; inversion E; subst sd. cbn in F. discriminate.
+  - destruct (is_nan (VFloat f)); [|apply Inl; left; reflexivity]. destruct read; [|exact Pk].
+    cbn. intros E; inversion E; subst sd. cbn in F. discriminate.
+  - destruct (pv_len (VStr s) <? m); [apply Inl; left; reflexivity|].
+    cbn [run_plan]. destruct (_ && _); [|discriminate]. intros E; inversion E; subst sd. cbn in F. discriminate.
+  - destruct (pv_len (VBytes b) <? m); [apply Inl; left; reflexivity|].
+    cbn. intros E; inversion E; subst sd. cbn in F. discriminate.
+  - destruct read; [|exact Pk]. cbn. intros E; inversion E; subst sd. cbn in F. discriminate.
+  - destruct read; [|exact Pk]. cbn. intros E; inversion E; subst sd. cbn in F. discriminate.
+Qed.
+
+Lemma fs_get_app_old f i x : (forall c, In (i, c) f -> True) -> i <> fst x -> fs_get (f ++ [x]) i = fs_get f i.
+Proof.
+  intros _ N. induction f as [|[j c] f IH]; cbn.
+  - destruct x as [j c]. cbn in N. destruct (Z.eqb_spec j i); [congruence|reflexivity].
+  - destruct (j =? i); auto.
+Qed.
+
+Lemma fs_get_app_new f nf content : (forall i c, In (i, c) f -> i < nf) -> fs_get (f ++ [(nf, content)]) nf = Some content.
+Proof.
+  induction f as [|[j c] f IH]; cbn; intros H.
+  - rewrite Z.eqb_refl. reflexivity.
+  - destruct (Z.eqb_spec j nf) as [->|N]; [specialize (H nf c (or_introl eq_refl)); lia|].
+    apply IH. intros i c' Hi. eapply H. right; exact Hi.
+Qed.
+
+Lemma file_ids_lt l n : (forall r i, In r l -> rfile r = Some i -> i < n) -> forall i, In i (file_ids l) -> i < n.
+Proof.
+  intros H i Hi. unfold file_ids in Hi. apply in_flat_map in Hi as [r [Hr Hi]].
+  destruct (rfile r) as [j|] eqn:F; [|destruct Hi]. destruct Hi as [<-|[]]. eauto.
+Qed.
+
+(* push preserves the full invariant *)
+Theorem push_preserves c s v read p sd_ expire tag now sd :
+  qinv_full c p s ->
+  store (c_codec c) (c_min_file_size c) v read = StOk sd ->
+  push_min_key < push_num p sd_ (queue_view p s) < push_max_key ->
+  qinv_full c p (push_state s p sd_ expire tag now sd).
+Proof.
+  intros [[Ok [C [Fs Rd]]] [Ff Fr]] St V.
+  destruct (push_view s p sd_ expire tag now sd Ok C V) as [Vw [Ok' [C' _]]].
+  set (s' := push_state s p sd_ expire tag now sd) in *. set (r := push_row s p sd_ expire tag now sd) in *.
+  assert (Rows : rows s' = rows s ++ [r]) by apply push_state_rows.
+  assert (ViewIn : forall x, In x (queue_view p s) -> In x (rows s)) by (intros x Hx; apply in_queue_view in Hx; tauto).
+  (* the file system after the write *)
+  assert (FS : (s_file sd = None /\ rfile r = None /\ fs s' = fs s /\ next_file s' = next_file s) \/
+               (exists content, s_file sd = Some content /\ rfile r = Some (next_file s) /\
+                                fs s' = fs s ++ [(next_file s, content)] /\ next_file s' = next_file s + 1)).
+  { unfold s', r, push_state, push_row. destruct (s_file sd) as [content|] eqn:F; [right; exists content|left]; cbn; auto. }
+  assert (Old : forall x, In x (rows s) -> fetch_row c s' x false = fetch_row c s x false).
+  { intros x Hx. unfold fetch_row, fs_lookup. destruct (rfile x) as [i|] eqn:Fx; [|reflexivity].
+    destruct FS as [[_ [_ [E _]]]|[content [_ [_ [E _]]]]]; rewrite E; [reflexivity|].
+    rewrite fs_get_app_old; auto. cbn. pose proof (Fr x i Hx Fx). lia. }
+  assert (New : fetch_row c s' r false <> FIOError).
+  { unfold fetch_row. replace (rmode r) with (s_mode sd) by reflexivity. replace (rvalue r) with (s_col sd) by reflexivity.
+    replace (fs_lookup s' (rfile r)) with (s_file sd); [eapply store_fetchable; eauto|].
+    destruct FS as [[E1 [E2 _]]|[content [E1 [E2 [E3 _]]]]]; rewrite E1, E2; cbn [fs_lookup]; [reflexivity|].
+    rewrite E3. symmetry. apply fs_get_app_new. exact Ff. }
+  assert (Ids : forall i, In i (file_ids (queue_view p s)) -> i < next_file s).
+  { apply file_ids_lt. intros x i Hx. apply Fr, ViewIn, Hx. }
+  assert (IdR : file_ids [r] = match rfile r with Some i => [i] | None => [] end) by (cbn; apply app_nil_r).
+  split; [split; [exact Ok'|split; [exact C'|split]]|].
+  - unfold files_sep. rewrite Vw.
+    assert (N : NoDup (file_ids (queue_view p s) ++ file_ids [r])).
+    { rewrite IdR. destruct FS as [[_ [E _]]|[content [_ [E _]]]]; rewrite E; [rewrite app_nil_r; exact Fs|].
+      apply NoDup_snoc; [exact Fs|]. intros H. apply Ids in H. lia. }
+    destruct sd_.
+    + rewrite file_ids_app. exact N.
+    + change (r :: queue_view p s) with ([r] ++ queue_view p s). rewrite file_ids_app.
+      eapply Permutation_NoDup; [apply Permutation_app_comm|exact N].
+  - intros x Hx. rewrite Vw in Hx.
+    assert (Hx' : x = r \/ In x (queue_view p s)).
+    { destruct sd_; [apply in_app_or in Hx as [Hx|[<-|[]]]; auto|destruct Hx as [<-|Hx]; auto]. }
+    destruct Hx' as [->|Hx']; [exact New|]. rewrite Old by (apply ViewIn, Hx'). apply Rd, Hx'.
+  - split.
+    + intros i ct Hi. destruct FS as [[_ [_ [E1 E2]]]|[content [_ [_ [E1 E2]]]]]; rewrite E1 in Hi; rewrite E2; [eapply Ff; eauto|].
+      apply in_app_or in Hi as [Hi|[Hi|[]]]; [pose proof (Ff i ct Hi); lia|inversion Hi; lia].
+    + intros x i Hx Fx. rewrite Rows in Hx.
+      assert (B : i < next_file s \/ (x = r /\ rfile r = Some i)).
+      { apply in_app_or in Hx as [Hx|[<-|[]]]; [left; eapply Fr; eauto|right; auto]. }
+      destruct FS as [[_ [E0 [_ E2]]]|[content [_ [E0 [_ E2]]]]]; rewrite E2; destruct B as [B|[-> B]]; try lia; rewrite E0 in B; [discriminate|inversion B; lia].
+Qed.
+
+(* pull / peek only remove: files and file ids stay below the supply *)
+Lemma fs_remove1_sub s o : (forall x, In x (fs (fs_remove s [o])) -> In x (fs s)) /\ next_file (fs_remove s [o]) = next_file s.
+Proof. destruct o as [j|]; cbn; split; auto. intros x Hx. apply filter_In in Hx. tauto. Qed.
+
+Lemma pull_loop_fs c p sd now : forall fuel s,
+  let s' := fst (op_pull_loop fuel c s p sd now) in
+  (forall x, In x (fs s') -> In x (fs s)) /\ next_file s' = next_file s /\ (forall r, In r (rows s') -> In r (rows s)).
+Proof.
+  induction fuel as [|f IH]; intros s; cbv zeta; [cbn; auto|].
+  cbn [op_pull_loop]. destruct (pull_select sd p (rows s)) as [|r0 l]; [cbn; auto|].
+  set (s1 := t_delete (pull_delete (rowid r0) (rows s)) s). set (s2 := fs_remove s1 [rfile r0]).
+  assert (B : (forall x, In x (fs s2) -> In x (fs s)) /\ next_file s2 = next_file s /\ (forall r, In r (rows s2) -> In r (rows s))).
+  { destruct (fs_remove1_sub s1 (rfile r0)) as [A1 A2]. fold s2 in A1, A2. split; [|split].
+    - intros x Hx. apply A1 in Hx. unfold s1 in Hx. rewrite fs_t_delete in Hx. exact Hx.
+    - rewrite A2. unfold s1, t_delete. destruct (del_rows _ _ _ _) as [[? ?] ?]. reflexivity.
+    - intros r Hr. unfold s2 in Hr. rewrite rows_fs_remove in Hr. unfold s1 in Hr. rewrite rows_t_delete in Hr.
+      apply filter_In in Hr. tauto. }
+  destruct B as [B1 [B2 B3]]. specialize (IH s2). cbv zeta in IH. destruct IH as [I1 [I2 I3]].
+  assert (T : (forall x, In x (fs (fst (op_pull_loop f c s2 p sd now))) -> In x (fs s)) /\
+              next_file (fst (op_pull_loop f c s2 p sd now)) = next_file s /\
+              (forall r, In r (rows (fst (op_pull_loop f c s2 p sd now))) -> In r (rows s))).
+  { split; [auto|split; [congruence|auto]]. }
+  destruct (pull_expired (expire_time r0) now); [exact T|].
+  destruct (fetch_row c s1 r0 false); cbn [fst]; try (split; [exact B1|split; [exact B2|exact B3]]). exact T.
+Qed.
+
+Lemma peek_loop_fs c p sd now : forall fuel s,
+  let s' := fst (op_peek_loop fuel c s p sd now) in
+  (forall x, In x (fs s') -> In x (fs s)) /\ next_file s' = next_file s /\ (forall r, In r (rows s') -> In r (rows s)).
+Proof.
+  induction fuel as [|f IH]; intros s; cbv zeta; [cbn; auto|].
+  cbn [op_peek_loop]. destruct (peek_select sd p (rows s)) as [|r0 l]; [cbn; auto|].
+  destruct (peek_expired (expire_time r0) now).
+  - set (s1 := t_delete (peek_delete (rowid r0) (rows s)) s). set (s2 := fs_remove s1 [rfile r0]).
+    destruct (fs_remove1_sub s1 (rfile r0)) as [A1 A2]. fold s2 in A1, A2.
+    specialize (IH s2). cbv zeta in IH. destruct IH as [I1 [I2 I3]]. split; [|split].
+    + intros x Hx. apply I1, A1 in Hx. unfold s1 in Hx. rewrite fs_t_delete in Hx. exact Hx.
+    + rewrite I2, A2. unfold s1, t_delete. destruct (del_rows _ _ _ _) as [[? ?] ?]. reflexivity.
+    + intros r Hr. apply I3 in Hr. unfold s2 in Hr. rewrite rows_fs_remove in Hr. unfold s1 in Hr. rewrite rows_t_delete in Hr.
+      apply filter_In in Hr. tauto.
+  - destruct (fetch_row c s r0 false); cbn; auto.
+Qed.
+
+Lemma fs_fresh_sub s s' :
+  (forall x, In x (fs s') -> In x (fs s)) -> next_file s' = next_file s -> (forall r, In r (rows s') -> In r (rows s)) ->
+  fs_fresh s -> fs_fresh s'.
+Proof. intros A B C [F1 F2]. split; [intros i c Hi|intros r i Hr Fi]; rewrite B; eauto. Qed.
+
+Theorem pull_preserves c s p sd now : qinv_full c p s -> qinv_full c p (fst (op_pull c s p sd now)).
+Proof.
+  intros [I F]. destruct (op_pull c s p sd now) as [s' res] eqn:E.
+  destruct (pull_refines _ _ _ _ _ _ _ I E) as [_ [_ [I' _]]]. split; [exact I'|].
+  pose proof (pull_loop_fs c p sd now (S (length (rows s))) s) as H. cbv zeta in H. unfold op_pull in E. rewrite E in H.
+  destruct H as [A [B C]]. eapply fs_fresh_sub; eauto.
+Qed.
+
+Theorem peek_preserves c s p sd now : qinv_full c p s -> qinv_full c p (fst (op_peek c s p sd now)).
+Proof.
+  intros [I F]. destruct (op_peek c s p sd now) as [s' res] eqn:E.
+  destruct (peek_refines _ _ _ _ _ _ _ I E) as [_ [_ [I' _]]]. split; [exact I'|].
+  pose proof (peek_loop_fs c p sd now (S (length (rows s))) s) as H. cbv zeta in H. unfold op_peek in E. rewrite E in H.
+  destruct H as [A [B C]]. eapply fs_fresh_sub; eauto.
+Qed.
+
+Lemma qinv_full_init c p : qinv_full c p init_st.
+Proof.
+  split; [split; [constructor|split; [intros r []|split; [constructor|intros r Hr; apply in_queue_view in Hr as [[] _]]]]|].
+  split; [intros i ct []|intros r i []].
+Qed.
+
+(* every state reachable from the empty cache by pushes (inside the key range, _cull quiet), pulls and peeks on
+   prefix p satisfies the invariant -- so the clauses of deque_refines hold at every point of every such history *)
+Inductive q_reach (c : cfg) (p : option (list Z)) : st -> Prop :=
+| qr_init : q_reach c p init_st
+| qr_push s v read sd_ expire tag now pg sd :
+    q_reach c p s ->
+    store (c_codec c) (c_min_file_size c) v read = StOk sd ->
+    push_min_key < push_num p sd_ (queue_view p s) < push_max_key ->
+    cull_quiet c now pg (push_state s p sd_ expire tag now sd) ->
+    q_reach c p (fst (op_push c s v read p sd_ expire tag now pg))
+| qr_pull s sd now : q_reach c p s -> q_reach c p (fst (op_pull c s p sd now))
+| qr_peek s sd now : q_reach c p s -> q_reach c p (fst (op_peek c s p sd now)).
+
+Theorem q_reach_inv c p s : q_reach c p s -> qinv_full c p s.
+Proof.
+  induction 1 as [|s v read sd_ expire tag now pg sd R IH St V Q|s sd now R IH|s sd now R IH].
+  - apply qinv_full_init.
+  - destruct IH as [[Ok [C X]] F].
+    destruct (push_refines c s v read p sd_ expire tag now pg sd Ok C St V Q) as [E _]. rewrite E. cbn [fst].
+    apply (push_preserves c s v read p sd_ expire tag now sd); auto. split; [split; [exact Ok|split; [exact C|exact X]]|exact F].
+  - apply pull_preserves, IH.
+  - apply peek_preserves, IH.
 Qed.
